@@ -42,6 +42,7 @@ class Contract:
     modifies: list[str] = field(default_factory=list)
     loops: dict[int, Loop] = field(default_factory=dict)
     lemmas: dict[str, Lemma] = field(default_factory=dict)
+    post_lemmas: dict[str, Lemma] = field(default_factory=dict)  # induction lemmas proved at each return point (may mention locals)
     props: list[str] = field(default_factory=list)
     inline: bool = False
     fresh_result: bool = False  # result (and what it owns) is allocated by the call
@@ -121,6 +122,7 @@ class Registry:
         for k, v in loops.items():
             loops2[k] = v if isinstance(v, Loop) else Loop(**v)
         lem = {k: (v if isinstance(v, Lemma) else Lemma(*v)) for k, v in kw.pop("lemmas", {}).items()}
+        kw["post_lemmas"] = {k: (v if isinstance(v, Lemma) else Lemma(*v)) for k, v in kw.pop("post_lemmas", {}).items()}
         for key in ("requires", "ensures", "raises", "assumes"):
             if key in kw and isinstance(kw[key], (list, tuple)):
                 kw[key] = {f"{key[0]}{i}": t for i, t in enumerate(kw[key])}
